@@ -297,11 +297,13 @@ func VerifC07_ScheduledAfterQueuedRun() {
 	aRuns := 0
 	bRunning := false
 	gate := make(chan struct{})
+	// with a max delay, and without one (0: no max delay)
+	aDelay := time.Duration(3*rt.Choice("maxdelay", 2)) * u
 	a := m.NewTask("a", func(context.Context, *Task) error {
 		aRuns++
 		rt.Assert(!bRunning, "schedafterqueue/not-started-while-the-slot-is-taken")
 		return nil
-	}).MaxDelay(3 * u)
+	}).MaxDelay(aDelay)
 	b := m.NewTask("b", func(context.Context, *Task) error {
 		bRunning = true
 		<-gate
@@ -315,8 +317,9 @@ func VerifC07_ScheduledAfterQueuedRun() {
 	}()
 	go taskQueueHandler()
 	go taskScheduleHandler()
-	// first run of a through a queue
-	switch rt.Choice("firstrun", 3) {
+	// first run of a through a queue (or none: the task is only ever scheduled)
+	first := rt.Choice("firstrun", 4)
+	switch first {
 	case 0:
 		a.Queue()
 	case 1:
@@ -325,7 +328,11 @@ func VerifC07_ScheduledAfterQueuedRun() {
 		a.StartASAP()
 	}
 	time.Sleep(u / 8)
-	rt.Assert(aRuns == 1, "schedafterqueue/first-run-done")
+	base := 1
+	if first == 3 {
+		base = 0
+	}
+	rt.Assert(aRuns == base, "schedafterqueue/first-run-done")
 	// b takes the queue slot and stays in its function (a task that returned
 	// very quickly may keep the slot busy for up to the execution-wait limit:
 	// wait until b has started)
@@ -338,10 +345,10 @@ func VerifC07_ScheduledAfterQueuedRun() {
 	// execution-wait limit of one minute)
 	a.Schedule(time.Now().Add(u / 4))
 	time.Sleep(u / 2)
-	rt.Assert(aRuns == 1, "schedafterqueue/scheduled-task-waits-for-the-running-one")
+	rt.Assert(aRuns == base, "schedafterqueue/scheduled-task-waits-for-the-running-one")
 	close(gate)
 	time.Sleep(u / 2)
-	rt.Assert(aRuns == 2, "schedafterqueue/scheduled-task-runs-afterwards")
+	rt.Assert(aRuns == base+1, "schedafterqueue/scheduled-task-runs-afterwards")
 	rt.Reach("schedafterqueue-end")
 }
 
